@@ -1581,6 +1581,8 @@ var shapeTargets = []shapeTarget{
 	{"internal/transfer", "RecvManifestMultiStream", "", "if-cond-has:statErr", "entry_stat_test"},
 	{"internal/transfer", "RecvManifestMultiStream", "", "args:os.Remove", "entry_removes"},
 	{"internal/transfer", "LoadOrCreateSidecarWithFallback", "", "if-all", "entry_load_ifs"},
+	// the sender's per-file confirmation goroutine (started by sendFileEnd): a rejected file returns before anything is counted
+	{"internal/transfer", "SendManifestMultiStream", "", "closure-go:sendFileEnd", "send_confirm_goroutine"},
 	// finalisation gate of the receiver (Model/Once)
 	{"internal/transfer", "RecvManifestMultiStream", "", "closure-head:finalizeFile:4", "finalize_gate"},
 	{"internal/transfer", "RecvManifestMultiStream", "", "seq:state.done = true|completedCount++|s.done = true", "finalize_done_sets"},
@@ -1732,6 +1734,34 @@ func (w *world) shapesIn(body *ast.BlockStmt, sel string) []string {
 				return false
 			}
 			if _, ok := n.(*ast.FuncLit); ok {
+				return false
+			}
+			return true
+		})
+		return res
+	}
+	if strings.HasPrefix(sel, "closure-go:") {
+		// statements of the goroutine started by the function literal assigned to the named variable
+		name := sel[len("closure-go:"):]
+		ast.Inspect(body, func(n ast.Node) bool {
+			as, ok := n.(*ast.AssignStmt)
+			if !ok || len(as.Lhs) != 1 || len(as.Rhs) != 1 || w.exprText(as.Lhs[0]) != name {
+				return true
+			}
+			if fl, ok := as.Rhs[0].(*ast.FuncLit); ok {
+				// the top-level statements of the first goroutine the closure starts, one line each
+				ast.Inspect(fl.Body, func(m ast.Node) bool {
+					if len(res) > 0 {
+						return false
+					}
+					if gs, ok := m.(*ast.GoStmt); ok {
+						if gl, ok := gs.Call.Fun.(*ast.FuncLit); ok {
+							res = append(res, w.shapesIn(gl.Body, "body-stmts")...)
+						}
+						return false
+					}
+					return true
+				})
 				return false
 			}
 			return true
